@@ -583,6 +583,16 @@ func (w *world) history(forge bool) {
 		r := g.Intn(100)
 		switch {
 		case r < 18:
+			if mss := int(kcp.VerifKCPState(e.k).Mss); w.stream && mss <= 80 && g.Chance(12) {
+				// the refused Send: stream mode, a partly filled last segment, a buffer that needs
+				// more than 255 segments even after the append — it must take nothing (no pool event,
+				// no change of the last segment)
+				w.o.Count("send:refused-stream-case")
+				w.send(e, w.payload(1+g.Intn(max(mss-1, 1))))
+				w.send(e, w.payload(mss*256+g.Intn(2*mss+1)))
+				w.state(e)
+				break
+			}
 			w.send(e, w.payload(w.sendSize(e)))
 		case r < 34:
 			if useUpdate {
